@@ -27,10 +27,10 @@ var (
 
 // ScriptOpts tunes GenScript.
 type ScriptOpts struct {
-	NConvs     int
-	NPkts      int
-	V6Prob     float64
-	NoBadPkts  bool // no fragments / truncated / invalid packets
+	NConvs       int
+	NPkts        int
+	V6Prob       float64
+	NoBadPkts    bool // no fragments / truncated / invalid packets
 	OnlyDecisive bool
 }
 
